@@ -144,10 +144,11 @@ class _TH(BaseRequestHandler):
         self.timeouts.append(1)
 
 
-def c_timeout(g1: int, g2: int, g3: int, s_us: int) -> str:
+def c_timeout(g1: int, g2: int, g3: int, s_us: int, r1: bool, r2: bool, r3: bool) -> str:
     """
     Time-out detection: max lifetime L_US (configuration), keep-alive period beyond the horizon.  The server
-    acknowledges after SYMBOLIC gaps g_i in [0, 2.5 L], then stays silent for a SYMBOLIC time s in [0, 3.5 L].
+    sends a KEEPALIVE (an acknowledgement, or - r_i - a respond-flagged one of its own: either is a sign of life)
+    after SYMBOLIC gaps g_i in [0, 2.5 L], then stays silent for a SYMBOLIC time s in [0, 3.5 L].
     If every gap <= L the timeout callback is not invoked while the silence is <= L; once the silence exceeds 2 L
     it has been invoked.
 
@@ -161,15 +162,16 @@ def c_timeout(g1: int, g2: int, g3: int, s_us: int) -> str:
         h = c._handler
         devs = []
         gaps = [g1, g2, g3][:NGAPS]
+        resp = [concb(r) for r in (r1, r2, r3)[:NGAPS]]
         all_short = True
-        for g in gaps:
+        for gi, g in enumerate(gaps):
             loop.advance_us(g)
             if g > L_US:
                 all_short = False
             if all_short and h.timeouts:
                 devs.append('timeout-callback-although-KEEPALIVEs-arrive-within-lifetime')
             f = KeepAliveFrame()
-            f.flags_respond = False
+            f.flags_respond = resp[gi]
             t.feed_wire(f)
             loop.run_ready()
         before = len(h.timeouts)
